@@ -176,10 +176,12 @@ func funcDir(ctx *Context, this *VMValue, params []*VMValue) *VMValue {
 	typeId := params[0].TypeId
 	var arr []*VMValue
 	if v, ok := builtinProto[typeId]; ok {
-		v.Range(func(key string, value *VMValue) bool {
-			arr = append(arr, NewStrVal(key))
-			return true
-		})
+		if dd, ok := v.V().ReadDictData(); ok {
+			dd.Dict.rangeSorted(func(key string, value *VMValue) bool {
+				arr = append(arr, NewStrVal(key))
+				return true
+			})
+		}
 	}
 	if typeId == VMTypeNativeObject {
 		v := params[0]
